@@ -10,6 +10,18 @@ SEEK_TRAIT = "std::io::Seek"
 _must_read = {}
 
 
+def consuming_call(t):
+    """a stream call that transfers at least one byte whenever it succeeds: read_exact (whole transfer, fails at end of input)
+    and the byteorder readers built on it.  `Read::read`, `take`, `bytes`, `read_to_end` may succeed without transferring
+    anything (end of input), so a loop that advances only through them has no progress argument."""
+    c = t["callee"]
+    if c.get("trait") == "byteorder::io::ReadBytesExt":
+        return True
+    if c.get("trait") == "std::io::Read":
+        return strip_generics(c.get("path") or "").split("::")[-1] == "read_exact"
+    return False
+
+
 def ok_blocks(body):
     """blocks that build the success value `_0 = Ok(..)` / `_0 = Some(..)`; all return blocks when the function does
     not return Result/Option"""
@@ -40,7 +52,7 @@ def must_read(fx, fid, depth=0):
     readers = []
     for b, t in body.calls():
         c = t["callee"]
-        if c.get("trait") in READ_TRAITS:
+        if consuming_call(t):
             readers.append(b)
         else:
             p = callee_path(c)
